@@ -75,7 +75,10 @@ def main_wt():
         args = args[2:]
     mode, only = args[0], args[1:]
     work = []
-    if mode == "reverts":
+    if mode == "patch":  # wt patch <file.diff> <prop>...: an arbitrary patch (e.g. two fixes reverted together)
+        tag = os.path.basename(only[0])[:-5]
+        work.append((tag, os.path.abspath(only[0]), only[1:], None, {"kind": "revert", "commit": tag, "what": "fixes reverted together"}))
+    elif mode == "reverts":
         kf = json.load(open(f"{V}/known_findings.json"))
         for line in kf["fixed"]:
             pid, commit, what = re.match(r"fixed: property=(\w+) (\w+) (.*)", line).groups()
